@@ -142,7 +142,7 @@ def mutants(args):
             killed_by = []
             t0 = time.time()
             for prop in props:
-                if prop not in PROPERTY_PROFILE:
+                if prop not in PROPERTY_PROFILE and prop != "C20":
                     continue
                 p = subprocess.run([sys.executable, "-m", "dsim.cli", "check", prop, "--repo", scratch, "--no-minimise",
                                     "--mutant-mode"], cwd=O.VERIF, capture_output=True, text=True)
